@@ -242,7 +242,25 @@ func c16StoredValues(r *Run) {
 					// results of strconv.Parse* with the item's bit size are range-checked by strconv
 					if c, ok := x.Tuple.(*ssa.Call); ok {
 						if g := calleeOf(c).Static; g != nil && fnPkgPath(g) == "strconv" {
-							return true, "strconv result (range-checked by bit size)"
+							a := c.Call.Args
+							switch g.Name() {
+							case "ParseInt", "ParseUint":
+								// range-checked by strconv when the bit size is the item's own width
+								if _, isK := constInt(a[2]); !isK && strings.Contains(render(a[2]), "byteSize") {
+									return true, "strconv result (range-checked at the item's bit size)"
+								}
+								return false, "number parsed at a fixed bit size, not the item's width: " + shortRender(v)
+							case "ParseFloat":
+								// ParseFloat(s, 64) is not bounded by ±MaxFloat32: an F4 item needs the clamp
+								if overflowOff(b) {
+									return true, "F8: every parsed float64 is representable"
+								}
+								if _, isK := constInt(a[1]); !isK && strings.Contains(render(a[1]), "byteSize") {
+									return true, "strconv result (range-checked at the item's bit size)"
+								}
+								return false, "parsed float64 stored in an item that may be F4 without clampF4: " + shortRender(v)
+							}
+							return false, "unrecognised strconv result " + shortRender(v)
 						}
 					}
 				case *ssa.BinOp:
